@@ -16,7 +16,7 @@
 //! are kept out of the programs.
 //!
 //! The alphabet covers every public operation of `DashMap` / `DashSet` that touches the map (see the
-//! table in `program_set`): closures passed to the operations have data-dependent behaviour
+//! table at B5 in `program_set`): closures passed to the operations have data-dependent behaviour
 //! (predicates on the current value, deltas added to it), so that an implementation that evaluates
 //! under one lock acquisition and writes under another produces a result or final contents that no
 //! linear order of the operations explains.  `try_*` operations never block: the model answers
@@ -1587,12 +1587,39 @@ pub fn program_set(set: &str) -> Vec<Program<DashFam>> {
         }
     }
     // B5: every operation outside the original alphabet against each racing writer / guard holder
-    // on the same key, and against itself; main reads the final contents after the joins
+    // on the same key, and against itself; main reads the final contents after the joins.
+    //
+    // API coverage (lib.rs / set.rs -> operation of the alphabet; lock mode read from the source):
+    //   insert W Insert | get R Get/GetHold | get_mut W GetMut/GetMutHold | try_get tryR TryGet/TryGetHold
+    //   try_get_mut tryW TryGetMut/TryGetMutHold | remove W Remove | remove_if W RemoveIf
+    //   remove_if_mut W RemoveIfMut | entry W EntryDo/TakeEntry/Entry* | try_entry tryW TryEntry/TryEntryHold
+    //   iter R Iter | iter_mut W IterMut | len R Len | is_empty R IsEmpty | clear W Clear
+    //   capacity R Capacity | shrink_to_fit W ShrinkToFit | contains_key R ContainsKey | retain W Retain
+    //   alter W Alter | alter_all W AlterAll | view R View | clone R CloneMap
+    //   Entry::{or_insert EntryOrInsert/EntryHold, or_insert_with, or_insert_with_key, or_default,
+    //           and_modify EntryAndModify, key (asserted in every entry operation)}
+    //   OccupiedEntry::{key, get, get_mut, into_ref, insert, into_key, remove, remove_entry,
+    //                   replace_entry, replace_entry_with} = OccAct; VacantEntry::{key, into_key,
+    //                   insert, insert_entry} = VacAct
+    //   Ref::{key, value, pair, deref} ReadHeld/ReadHeldPair; RefMut::{key, value, value_mut, pair,
+    //   pair_mut, deref, deref_mut} ReadHeld/ReadHeldPair/SetHeld/AddHeld; RefMulti / RefMutMulti
+    //   accessors inside Iter / IterMut; TryResult::{is_present, is_absent, is_locked, unwrap,
+    //   try_unwrap} inside the try operations.
+    //   DashSet: insert SInsert | remove SRemove | remove_if SRemoveIf | get SGetHold | contains
+    //   SContains | iter SIter | len SLen | is_empty SIsEmpty | clear SClear | capacity SCapacity |
+    //   shrink_to_fit SShrinkToFit | retain SRetain.
+    //   Not exercised: constructors, `Extend` (takes &mut self: no concurrent access is possible),
+    //   `into_iter` of the shared map (by value), `RefMut::downgrade` (not implemented by the wrapper).
+    // No operation of the wrapper takes the lock twice or gives it back between its read and its
+    // write (read from the source and confirmed by the runs: a second acquisition shows up as an
+    // Enabled violation, see the `view` self-test in the builder's report).
     {
         let pre2 = [DOp::Insert(0, 5), DOp::Insert(1, 60)];
         let post = [DOp::Iter];
         let news = new_map_bodies(0);
         let partners = map_partners(0);
+        let news1 = new_map_bodies(1);
+        let partners1 = map_partners(1);
         for (i, n) in news.iter().enumerate() {
             for p in &partners {
                 out.push(mk_post(&pre2, &[n, p], &post, false));
@@ -1601,15 +1628,17 @@ pub fn program_set(set: &str) -> Vec<Program<DashFam>> {
             // from the empty map: the vacant / absent side of the operation
             out.push(mk_post(&[], &[n, &partners[0]], &post, false));
             out.push(mk_post(&[], &[n], &post, false));
+            // on the key whose value fails the predicates (an operation that takes the entry out and
+            // puts it back must not let anybody see the gap)
+            for p in &partners1 {
+                out.push(mk_post(&pre2, &[&news1[i], p], &post, false));
+            }
             if thorough {
                 out.push(mk_post(&[], &[n, n], &post, false));
+                out.push(mk_post(&pre2, &[&news1[i], &news1[i]], &post, false));
                 // new against new
                 for n2 in &news[i + 1..] {
                     out.push(mk_post(&pre2, &[n, n2], &post, false));
-                }
-                // on the key that fails the predicates
-                for p in map_partners(1) {
-                    out.push(mk_post(&pre2, &[&new_map_bodies(1)[i], &p], &post, false));
                 }
                 // followed by a read of the same thread
                 for p in &partners {
@@ -1651,6 +1680,26 @@ pub fn program_set(set: &str) -> Vec<Program<DashFam>> {
             // at least one new operation and one writer among the old ones
             if idx[0] < news.len() && idx[2] >= news.len() && idx[2] < news.len() + 3 {
                 out.push(mk_post(&pre2, &[&tri[idx[0]], &tri[idx[1]], &tri[idx[2]]], &post, false));
+            }
+        }
+        if thorough {
+            // three new read-modify-write operations on one key
+            let rmw: Vec<Vec<DOp>> = vec![
+                vec![DOp::RemoveIf(0, 50)],
+                vec![DOp::RemoveIfMut(0, 50, 1000)],
+                vec![DOp::Retain(50, 1000)],
+                vec![DOp::AlterAll(1000)],
+                vec![DOp::TryGetMut(0, 1000)],
+                vec![DOp::TryEntry(0, 3)],
+                vec![DOp::GetMut(0, 1000)],
+                vec![DOp::IterMut(1000)],
+                vec![DOp::EntryAndModify(0, 1000, 3)],
+                vec![DOp::EntryDo(0, OccAct::ReplaceWith(50, 1000), VacAct::Insert(3))],
+                vec![DOp::EntryDo(0, OccAct::IntoRef(1000), VacAct::InsertEntry(3))],
+                vec![DOp::EntryDo(0, OccAct::Remove, VacAct::Leave)],
+            ];
+            for idx in nondecreasing_tuples(rmw.len(), 3) {
+                out.push(mk_post(&pre2, &[&rmw[idx[0]], &rmw[idx[1]], &rmw[idx[2]]], &post, false));
             }
         }
         if !thorough {
